@@ -245,6 +245,16 @@ func reifyMap(opts *options, to reflect.Value, from *Config, validators []valida
 		}
 	}
 
+	// entries the configuration does not mention keep their value, which must validate as well
+	for _, key := range to.MapKeys() {
+		if _, mentioned := fields[key.String()]; mentioned {
+			continue
+		}
+		if err := tryRecursiveValidate(to.MapIndex(key), opts, nil); err != nil {
+			return raiseValidation(from.ctx, from.metadata, key.String(), err)
+		}
+	}
+
 	if err := runValidators(to.Interface(), validators); err != nil {
 		return raiseValidation(from.ctx, from.metadata, "", err)
 	}
